@@ -225,3 +225,35 @@ Proof.
     fold (proj_res c (run t st')). fold (proj_ops c t).
     rewrite <- (S2 c Hc Hne). apply IH; assumption.
 Qed.
+
+(* ---------- retransmissions ---------- *)
+Lemma nth_wire_first c o n : nth_wire false c o n = enc_op c o.
+Proof. destruct n; reflexivity. Qed.
+
+(* every transmission has the effect and the answer of the first: transparent, other keyspaces untouched *)
+Lemma retransmit_transparent c o n st : ks_ok c -> store_ok st ->
+  let '(st', r) := step (nth_wire false c o n) st in
+  step o (view c st) = (view c st', dec_res c r) /\
+  (forall c', ks_ok c' -> c' <> c -> view c' st' = view c' st).
+Proof.
+  intros Hc Hst. rewrite nth_wire_first.
+  destruct (client_step_sim c o st Hc Hst) as (S1 & S2 & _). unfold client_step in *.
+  destruct (step (enc_op c o) st) as [st' r]. cbn [fst snd] in *. split; assumption.
+Qed.
+
+(* encoding is not idempotent: an already encoded key must never be encoded again *)
+Lemma encode_key_not_idempotent c k : encode_key c (encode_key c k) <> encode_key c k.
+Proof.
+  intros E. apply (f_equal (@length N)) in E. unfold encode_key in E. rewrite !app_length, prefix_length in E. lia.
+Qed.
+
+(* a client that re-encodes what the previous transmission left behind writes outside its own keyspace: the second
+   transmission of a put stores a key the client can no longer read *)
+Lemma reencode_refuted : exists c k v,
+  ks_ok c /\ nth_wire true c (OPut k v) 1 <> enc_op c (OPut k v) /\
+  lookup k (view c (fst (step (nth_wire true c (OPut k v) 1) []))) = None /\
+  lookup k (view c (fst (step (nth_wire false c (OPut k v) 1) []))) = Some v.
+Proof.
+  exists (mkks Txn 258), [7], [9]. split; [unfold ks_ok; cbn; reflexivity|].
+  split; [vm_compute; congruence|]. split; vm_compute; reflexivity.
+Qed.
